@@ -332,3 +332,44 @@ def reachable(root, out=None, name="self"):
                 if isinstance(vv, Rec) and not vv.frozen:
                     reachable(vv, out, f"{name}.{k}[{kk}]")
     return out
+
+
+class Roles:
+    """loop-invariant access to the locals of the analysed function by ROLE rather than by spelling: the usual name is tried first; if the local was renamed,
+    the unique local whose value AT LOOP ENTRY satisfies the role's matcher is taken (and remembered for the rest of the path)."""
+
+    def __init__(self):
+        self.map = {}
+
+    def get(self, env, name, at_entry=None, exclude=()):
+        if name in self.map and self.map[name] in env:
+            return env[self.map[name]]
+        if name in env:
+            self.map[name] = name
+            return env[name]
+        cands = []
+        if at_entry is not None:
+            for k, v in env.items():
+                if k in exclude:
+                    continue
+                try:
+                    if at_entry(v):
+                        cands.append(k)
+                except Exception:
+                    pass
+        if len(cands) == 1:
+            self.map[name] = cands[0]
+            return env[cands[0]]
+        raise V.Unsupported(f"loop invariant: no local named `{name}` and {len(cands)} locals fit its role {cands} (sidecar contract needs updating)")
+
+
+def is_zero(v):
+    return (isinstance(v, int) and not isinstance(v, bool) and v == 0) or (V.is_sym(v) and z3.is_int_value(v) and v.as_long() == 0)
+
+
+def is_empty_list(v):
+    return isinstance(v, list) and len(v) == 0
+
+
+def is_term(t):
+    return lambda v: V.is_sym(v) and z3.eq(z3.simplify(V.toz(v)), z3.simplify(V.toz(t)))
